@@ -174,7 +174,7 @@ def specArrive (s : SpecSt) (x : Item) : SpecSt × Option String :=
         let who := if x.src.svc = 0 then "front-local" else "back-end"
         let txt := s!"client {x.client} read {showItem x} before #{e.arrived}..#{x.seq - 1} of the same {who} thread (issued earlier: {String.join (over.map kindCh)})"
         if x.kind = .resp ∧ over.contains .push then
-          if x.src.svc = 0 then (s', some ("C03/front-local-push-after-response " ++ txt))
+          if x.src.svc = 0 ∧ x.src.thr = 0 then (s', some ("C03/front-local-push-after-response " ++ txt))
           else (s', some ("C03/push-overtaken-by-response " ++ txt))
         else if x.kind = .push ∧ over.contains .push then (s', some ("C03/pushes-reordered " ++ txt))
         else if x.kind = .push then (s', some ("C03/response-overtaken-by-push " ++ txt))
@@ -222,28 +222,35 @@ def NS : Nat := 8
 def NC : Nat := 16
 def NT : Nat := 256
 
-def tab {α : Type} (n : Nat) (f : Nat → α) (dflt : α) : Nat → α :=
-  let t := ((List.range n).map f).toArray
-  fun q => t.getD q dflt
+def tabulate {α : Type} (n : Nat) (f : Nat → α) : Array α := ((List.range n).map f).toArray
 
 /-- re-tabulate the function-valued fields (extensionally the identity for
 services < 8, clients < 16, workers < 256 — what the harness uses): keeps the
-closures produced by `upd` from nesting ever deeper -/
+closures produced by `upd` from nesting ever deeper.  The tables are computed
+here, once; the new fields only index them. -/
 def normalize (s : St) : St :=
-  let o := tab (NS * NT) (fun i => s.out ⟨i / NT, i % NT⟩) none
+  let tOut := tabulate (NS * NT) (fun i => s.out ⟨i / NT, i % NT⟩)
+  let tDet := tabulate NS s.detached
+  let tTask := tabulate NS s.task
+  let tTr := tabulate NS s.transport
+  let tCh := tabulate NC s.chSend
+  let tLost := tabulate NC s.lost
+  let tSock := tabulate NC s.socket
+  let tCl := tabulate NC s.closed
   { s with
-    out := fun σ => if σ.svc < NS ∧ σ.thr < NT then o (σ.svc * NT + σ.thr) else none
-    detached := tab NS s.detached []
-    task := tab NS s.task []
-    transport := tab NS s.transport []
-    chSend := tab NC s.chSend []
-    lost := tab NC s.lost []
-    socket := tab NC s.socket []
-    closed := tab NC s.closed false }
+    out := fun σ => if σ.svc < NS ∧ σ.thr < NT then (tOut.getD (σ.svc * NT + σ.thr) none) else none
+    detached := fun q => tDet.getD q []
+    task := fun q => tTask.getD q []
+    transport := fun q => tTr.getD q []
+    chSend := fun q => tCh.getD q []
+    lost := fun q => tLost.getD q []
+    socket := fun q => tSock.getD q []
+    closed := fun q => tCl.getD q false }
 
 structure AccSt where
   s : St := {}
   pend : List (Src × List Item) := []    -- handed to Post, closure not yet executed
+  frontQ : List LogEnt := []             -- the front goroutine's log, not yet replayed in the model
   nfire : Nat := 0
 
 def AccSt.fire (a : AccSt) (l : Label) : Option AccSt :=
@@ -261,7 +268,7 @@ def pendGet (p : List (Src × List Item)) (σ : Src) : List Item :=
 def pendSet (p : List (Src × List Item)) (σ : Src) (l : List Item) : List (Src × List Item) :=
   if p.any (fun e => e.1 = σ) then p.map (fun e => if e.1 = σ then (σ, l) else e) else p ++ [(σ, l)]
 
-/-- one entry of a service goroutine's log -/
+/-- one entry of a service goroutine's log: the service hands the item to the framework -/
 def accLog (a : AccSt) (svc : Nat) : LogEnt → Except String AccSt
   | .d c _ k =>
     match a.fire (.issue svc c k) with
@@ -279,31 +286,82 @@ def accLog (a : AccSt) (svc : Nat) : LogEnt → Except String AccSt
         | none => .error "post/send/run not enabled"
       else .error s!"service {svc} executed {svc}.{thr}>{c}#{n} but the worker's oldest outstanding post is {showItem y}"
 
-/-- step the model until the observed item is the next one written on connection `c` -/
-def accArrive (fuel : Nat) (a : AccSt) (c : Nat) (x : Item) : Except String AccSt :=
+def entItem (svc : Nat) : LogEnt → Item
+  | .d c n k => ⟨⟨svc, 0⟩, c, n, k⟩
+  | .x thr c n k => ⟨⟨svc, thr⟩, c, n, k⟩
+
+def arrHead (arr : List (Nat × List Item)) (c : Nat) : Option Item :=
+  match arr.find? (fun e => e.1 = c) with
+  | some (_, x :: _) => some x
+  | _ => none
+
+def arrPop (arr : List (Nat × List Item)) (c : Nat) : List (Nat × List Item) :=
+  arr.map (fun e => if e.1 = c then (e.1, e.2.drop 1) else e)
+
+/-- which back-end's oldest message in transport can be the front's next
+mailbox message: its connection is closed (it is dropped) or it is exactly the
+next thing that connection's client read -/
+def nextSender (a : AccSt) (arr : List (Nat × List Item)) : Option (Nat × Item × Bool) :=
+  (List.range NS).findSome? fun S =>
+    if S = 0 then none else
+    match a.s.transport S with
+    | h :: _ =>
+      if a.s.closed h.client then some (S, h, false)
+      else if arrHead arr h.client = some h then some (S, h, true) else none
+    | [] => none
+
+/-- find a schedule of the front (merge of the senders' queues into its mailbox,
+interleaved with what its own goroutine issued) that writes, on every
+connection, exactly the observed stream.  The choice is confluent: an enabled
+step never disables another one. -/
+def schedule (fuel : Nat) (a : AccSt) (arr : List (Nat × List Item)) : Except String AccSt :=
   match fuel with
   | 0 => .error "out of fuel"
   | fuel + 1 =>
-    match a.s.chSend c with
-    | y :: _ =>
-      if y = x then
-        match a.fire (.write c) with
-        | some a' => .ok a'
-        | none => .error "write not enabled"
-      else .error s!"client {c} read {showItem x} but the model's connection would write {showItem y} first"
-    | [] =>
-      match a.s.mailbox with
-      | _ :: _ =>
-        match a.fire .process with
-        | some a' => accArrive fuel a' c x
-        | none => .error "process not enabled"
-      | [] =>
-        match a.s.transport x.src.svc with
-        | _ :: _ =>
-          match a.fire (.deliver x.src.svc) with
-          | some a' => accArrive fuel a' c x
-          | none => .error "deliver not enabled"
-        | [] => .error s!"client {c} read {showItem x} but nothing of service {x.src.svc} is under way in the model"
+    match nextSender a arr with
+    | some (S, h, consume) =>
+      match (a.fire (.deliver S)).bind (·.fire .process) with
+      | none => .error "deliver/process not enabled"
+      | some a1 =>
+        if consume then
+          match a1.s.chSend h.client with
+          | [y] =>
+            if y = h then
+              match a1.fire (.write h.client) with
+              | some a2 => schedule fuel a2 (arrPop arr h.client)
+              | none => .error "write not enabled"
+            else .error s!"the model's connection {h.client} would write {showItem y}, the client read {showItem h}"
+          | _ => .error s!"the model's connection {h.client} has other messages queued in front of {showItem h}"
+        else schedule fuel a1 arr
+    | none =>
+      let stuck : Except String AccSt :=
+        match arr.find? (fun e => e.2 ≠ []) with
+        | none => .ok a
+        | some (c, l) =>
+          let x := l.headD ⟨⟨0, 0⟩, 0, 0, .push⟩
+          let nxt := if x.src.svc = 0 then (a.frontQ.head?.map (entItem 0)) else (a.s.transport x.src.svc).head?
+          .error (s!"client {c} read {showItem x}, but in the model the next message of service {x.src.svc} is " ++
+            (match nxt with | some y => showItem y | none => "none (nothing under way)"))
+      match a.frontQ with
+      | [] => stuck
+      | e :: rest =>
+        let h := entItem 0 e
+        let open_ := !a.s.closed h.client
+        if open_ ∧ arrHead arr h.client ≠ some h then stuck
+        else
+          match accLog { a with frontQ := rest } 0 e with
+          | .error m => .error m
+          | .ok a1 =>
+            if open_ then
+              match a1.s.chSend h.client with
+              | [y] =>
+                if y = h then
+                  match a1.fire (.write h.client) with
+                  | some a2 => schedule fuel a2 (arrPop arr h.client)
+                  | none => .error "write not enabled"
+                else .error s!"the model's connection {h.client} would write {showItem y}, the client read {showItem h}"
+              | _ => .error s!"the model's connection {h.client} does not hold exactly {showItem h}"
+            else schedule fuel a1 arr
 
 def exceptFold {α β : Type} (f : α → β → Except String α) (a : α) (l : List β) : Except String α :=
   l.foldl (fun acc b => match acc with | .ok a => f a b | .error e => .error e) (.ok a)
@@ -312,11 +370,14 @@ def accObs (a : AccSt) (o : Obs) : Except String AccSt := do
   -- posts: remember them (in Post order) with the counter the model will give them
   let a := o.posts.foldl (fun (a : AccSt) (σ, l) =>
     { a with pend := pendSet a.pend σ (pendGet a.pend σ ++ l.map (fun (c, n, k) => (⟨σ, c, n, k⟩ : Item))) }) a
-  let a ← exceptFold (fun a (svc, l) => exceptFold (fun a e => accLog a svc e) a l) a o.logs
-  let total := a.s.issued.length + 8
-  exceptFold (fun a (c, l) => exceptFold (fun a ox => match ox with
-      | none => .error s!"client {c} read something that is not a tagged push/response (error response?)"
-      | some x => accArrive (3 * total) a c x) a l) a o.arrs
+  -- back-ends: what their goroutines sent enters their transport queues; the front's own log is replayed lazily
+  let a ← exceptFold (fun a (svc, l) =>
+    if svc = 0 then .ok { a with frontQ := a.frontQ ++ l } else exceptFold (fun a e => accLog a svc e) a l) a o.logs
+  if o.arrs.any (fun e => e.2.any (·.isNone)) then
+    .error "a client read something that is not a tagged push/response (error response?)"
+  let arr := o.arrs.map (fun e => (e.1, e.2.filterMap id))
+  let work := (arr.map (·.2.length)).sum + a.frontQ.length + ((List.range NS).map (fun S => (a.s.transport S).length)).sum
+  schedule (work + 8) a arr
 
 def stepAccept (a : AccSt) (line : String) : AccSt × String :=
   match line.splitOn "\t" with
@@ -345,8 +406,8 @@ def stepAccept (a : AccSt) (line : String) : AccSt × String :=
               | none => (a', "ok")
               | some openL =>
                 let s := a'.s
-                let under := s.mailbox ++ (List.range NS).flatMap (fun S => s.transport S ++ s.task S) ++
-                  openL.flatMap (fun c => s.chSend c) ++ a'.pend.flatMap (·.2)
+                let under := (List.range NS).flatMap (fun S => s.transport S ++ s.task S) ++ s.mailbox ++
+                  openL.flatMap (fun c => s.chSend c) ++ a'.frontQ.map (entItem 0) ++ a'.pend.flatMap (·.2)
                 match under.find? (fun x => openL.contains x.client) with
                 | some x => (a', s!"REJECT quiescent, but {showItem x} never reached open client {x.client}")
                 | none => (a', "ok")
